@@ -12,6 +12,7 @@ def cases(tier, seed):
     for combo in combos:
         for t0 in (0.0, 10.0):
             yield {"runtime": "cpp", "combo": combo, "t0": t0, "tier": tier, "depth": 3}
+    yield {"runtime": "cpp", "combo": 0, "t0": 2.0 ** 30, "tier": "quick", "depth": 2, "h": 0.125}
     yield {"runtime": "cpp", "combo": "refuse"}
 
 
@@ -55,6 +56,7 @@ def terms_from_log(entries, id2term, has_ctl, has_cal, calv, fails, ctx):
 
 def eval_case(case):
     from fv.props import c11
+    c11.H = case.get("h", 0.1)
     if case["combo"] == "refuse":
         # a control model ticked without control must not compile (C++ refusal is static)
         src = '''#include <formak/runtime/ManagedFilter.h>
